@@ -1,4 +1,4 @@
-import IgrisModel.C19.Model3
+import IgrisModel.C19.Ptr2
 open Igris.Proto Igris.C19
 
 def fmtToks (v : List Str) : String :=
@@ -208,9 +208,8 @@ def stepCore (line : String) : String :=
     | ["premc", a, b] => do
         let a ← parseBytes? a
         let b ← parseBytes? b
-        pure (match pathRemovePrefix (a ++ [NUL]) (b ++ [NUL]) with
-              | none => "fault"
-              | some p => toString (a.length + 1 - p.length))
+        -- round 3b: the index-level model; the result is the offset of the returned pointer
+        pure (fmtPR (fun (r : Nat) => toString r) (pathRemovePrefixP (a ++ [NUL]) (b ++ [NUL])))
     | ["argv", b, m] => do
         let b ← parseBytes? b
         let m ← m.toNat?
@@ -252,15 +251,13 @@ def stepCore (line : String) : String :=
     | ["pcmp", a, b] => do
         let a ← parseBytes? a
         let b ← parseBytes? b
-        pure (match compareNode (a ++ [NUL]) (b ++ [NUL]) with
-              | none => "fault"
-              | some c => toString c)
+        -- round 3b: the index-level model (two blocks of exactly strlen+1 bytes)
+        pure (fmtPR (fun (c : Int) => toString c) (compareNodeP (a ++ [NUL]) (b ++ [NUL]) (a.length + 2) 0 0))
     | ["prem", a, b] => do
         let a ← parseBytes? a
         let b ← parseBytes? b
-        pure (match pathRemovePrefix (a ++ [NUL]) (b ++ [NUL]) with
-              | none => "fault"
-              | some p => toString (a.length + 1 - p.length))
+        -- round 3b: the index-level model; the result is the offset of the returned pointer
+        pure (fmtPR (fun (r : Nat) => toString r) (pathRemovePrefixP (a ++ [NUL]) (b ++ [NUL])))
     | ["creader", b] => do
         let b ← parseBytes? b
         pure (fmtCreader b)
